@@ -175,3 +175,30 @@ _add("url_scheme_case_port", Tmpl((1, "in_hH"), b"T", (1, "in_tT"), b"p://exampl
 _add("url_ip_host", Tmpl(b"http://10.0.", (1, "digit"), b".1/a?b"), check_url_parts, timeout=900, funcs=FU)
 _add("url_path_hole5", Tmpl(b"http://example.com/", (5, "urlpath")), check_url_parts, tier="thorough", timeout=3000, funcs=FU)
 _add("url_userinfo_hole4", Tmpl(b"https://", (4, "userinfo"), b"@example.com/p"), check_url_parts, tier="thorough", timeout=3000, funcs=FU)
+
+
+# ---- Windows path nodes ---------------------------------------------------------------------------------------
+def winpath_parts(data):
+    import ntpath
+
+    ok, hits = k_contract(find_windows_path, data, "find_windows_path")
+    if not ok:
+        return False, True
+    for h in hits:
+        raw = data[h.start:h.end]
+        if h.type not in ("windows.path", "windows.unc.path", "windows.device.path"):
+            return hx.fail("unknown path type", hit=h), True
+        if (h.obfuscation == "windows.dotpath") != (len(h.value) < len(raw)) or h.obfuscation not in ("", "windows.dotpath"):
+            return hx.fail("windows.dotpath label not 'exactly when normalisation shortened it'", data=data, hit=h), True
+        for c in h.children:
+            if not same_bytes(h.value[c.start:c.end], list(c.value)) and c.type != "network.ip":
+                return hx.fail("path child does not index the corresponding text of the path value", data=data, hit=h, child=c), True
+            if c.type in ("filename", "executable.filename", "executable.library.filename") and c.end != len(h.value):
+                return hx.fail("file-name child is not the tail of the path value", data=data, hit=h, child=c), True
+    return True, any(h.children for h in hits)
+
+
+FW = ["multidecoder.decoders.path.find_windows_path"]
+CLASSES["segdot"] = "((97 <= {x} <= 122) or {x} == 46 or {x} == 92)"
+_add("winpath_dots_and_filename", Tmpl(b" c:\\aaa\\", (2, "segdot"), b"\\bbb\\tool.exe "), winpath_parts, funcs=FW, timeout=600)
+_add("winpath_unc_host_and_filename", Tmpl(b" \\\\10.0.0.", (1, "digit"), b"\\sh\\", (2, "segdot"), b"\\a.dll "), winpath_parts, funcs=FW, timeout=600)
